@@ -10,7 +10,7 @@ def run(d):
     out=subprocess.run([V+'/bin/elyslint','omatrix','-v',d+'/patch.diff'],capture_output=True,text=True,timeout=900).stdout
     cb={}
     for line in out.splitlines():
-        m=re.match(r'\s+\S+: \[(violated|undecided)\] (\S+) : ',line)
+        m=re.search(r': \[(violated|undecided)\] (\S+) : ',line)
         if m:
             rule=m.group(2)
             prop=rule.split('-')[0] if re.match(r'C\d\d-',rule) else None
